@@ -145,7 +145,18 @@ def run(ck, replay=None):
             first = [l for l in x.get('stderr', '').split('\n') if l.startswith('panic:') or l.startswith('fatal error:') or 'SIGSEGV' in l]
             ck.violation('crashed:' + key, 'the interpreter process died: %s' % (first[:1] or x.get('stderr', '')[-200:]), {'src': src, 'stderr': x.get('stderr', '')[-1500:]})
         elif x['status'] == 'hung':
-            ck.violation('hung:' + key, 'program did not return within its deadline', {'src': src})
+            # rule 4.5: a missed deadline is believed only if the program, run alone, misses a 4x deadline twice more
+            again = 0
+            for k in range(2):
+                rr = prog.run_programs(ck, [{'id': 1, 'src': src, 'timeout_ms': 60000}], shards=1, tag='c19h')
+                if rr.get(1, {}).get('status') == 'hung':
+                    again += 1
+                else:
+                    break
+            if again == 2:
+                ck.violation('hung:' + key, 'program did not return (15 s, then twice 60 s running alone)', {'src': src})
+            else:
+                ck.cov['slow_not_hung'] = ck.cov.get('slow_not_hung', 0) + 1
         else:
             r = x['runs'][0]
             if r.get('panic'):
@@ -173,7 +184,21 @@ def run(ck, replay=None):
             if 'Murex has crashed' in err or 'panic caught' in err or 'panic:' in err or 'fatal error:' in err:
                 ck.violation('binary-panic:' + key, '`murex -c` reported an internal panic: ' + err[-300:].replace('\n', ' '), {'src': src, 'stderr': err[-1500:]})
             elif rc in (-9, 137):
-                ck.violation('binary-hung:' + key, '`murex -c` did not exit within 25 s', {'src': src})
+                hung = 0
+                for k in range(2):
+                    try:
+                        p2 = subprocess.run(['timeout', '-s', 'KILL', '90', murex, '-c', j['src']], cwd=cwd, stdin=subprocess.DEVNULL,
+                                            stdout=subprocess.PIPE, stderr=subprocess.PIPE, timeout=120)
+                        if p2.returncode in (-9, 137):
+                            hung += 1
+                        else:
+                            break
+                    except subprocess.TimeoutExpired:
+                        hung += 1
+                if hung == 2:
+                    ck.violation('binary-hung:' + key, '`murex -c` did not exit (25 s, then twice 90 s)', {'src': src})
+                else:
+                    ck.cov['slow_not_hung'] = ck.cov.get('slow_not_hung', 0) + 1
             elif rc < 0 or rc in (134, 139):
                 ck.violation('binary-killed:' + key, '`murex -c` was killed by a signal (rc %d)' % rc, {'src': src, 'stderr': err[-800:]})
             else:
